@@ -535,6 +535,9 @@ pub trait Api {
     fn with_extension(p: &[u8], e: &[u8]) -> Val;
     /// run a history of buffer mutations; snapshot (buffer, result, variant) after every step
     fn hist(init: &[u8], ops: &[Val]) -> Val;
+    /// self-consistency of the iterators and components of `a` (and of the first components of `a` and `b`):
+    /// (list of inconsistency tags, parity data = Components == / partial_cmp after 1 and 2 front steps on both)
+    fn cons(a: &[u8], b_: &[u8]) -> (Vec<Val>, Val);
 }
 
 pub fn not_utf8() -> Val {
@@ -649,6 +652,64 @@ macro_rules! impl_api {
                     Val::Bool(path.ends_with(arg)),
                     opt(path.strip_prefix(arg).ok(), |x| b(x.ab())),
                 ])
+            }
+            fn cons(a: &[u8], b_: &[u8]) -> (Vec<Val>, Val) {
+                use crate::selfcheck::{de_checks, iter_checks};
+                let mut bad: Vec<Val> = Vec::new();
+                let $pb = a;
+                let pa = $mk;
+                let $pb = b_;
+                let pb_ = $mk;
+                // components(): fresh, after one front step, after one back step
+                let it = pa.components();
+                iter_checks("components", &it, &|x| x.val(), &mut bad);
+                de_checks("components", &it, &|x| x.val(), &mut bad);
+                let mut it1 = pa.components();
+                it1.next();
+                iter_checks("components+f", &it1, &|x| x.val(), &mut bad);
+                de_checks("components+f", &it1, &|x| x.val(), &mut bad);
+                let mut it2 = pa.components();
+                it2.next_back();
+                iter_checks("components+b", &it2, &|x| x.val(), &mut bad);
+                de_checks("components+b", &it2, &|x| x.val(), &mut bad);
+                // iter()
+                let ii = pa.iter();
+                iter_checks("iter", &ii, &|x| x.ab(), &mut bad);
+                de_checks("iter", &ii, &|x| x.ab(), &mut bad);
+                let mut ii1 = pa.iter();
+                ii1.next();
+                iter_checks("iter+f", &ii1, &|x| x.ab(), &mut bad);
+                de_checks("iter+f", &ii1, &|x| x.ab(), &mut bad);
+                let mut ii2 = pa.iter();
+                ii2.next_back();
+                iter_checks("iter+b", &ii2, &|x| x.ab(), &mut bad);
+                // ancestors()
+                let an = pa.ancestors();
+                iter_checks("ancestors", &an, &|x| x.ab(), &mut bad);
+                let mut an1 = pa.ancestors();
+                an1.next();
+                iter_checks("ancestors+f", &an1, &|x| x.ab(), &mut bad);
+                // Eq / Ord / Hash coherence of the first components of a and b
+                if let (Some(x), Some(y)) = (pa.components().next(), pb_.components().next()) {
+                    let e = x == y;
+                    if (x.cmp(&y) == core::cmp::Ordering::Equal) != e || (x.partial_cmp(&y) == Some(core::cmp::Ordering::Equal)) != e {
+                        bad.push(c("component:eq_vs_cmp", vec![]));
+                    }
+                    if e && feed(&x) != feed(&y) {
+                        bad.push(c("component:eq_but_hash_differs", vec![]));
+                    }
+                }
+                // parity data: what == / partial_cmp of two partially consumed Components answer
+                let mut par = Vec::new();
+                for k in 1..=2 {
+                    let (mut ia, mut ib) = (pa.components(), pb_.components());
+                    for _ in 0..k {
+                        ia.next();
+                        ib.next();
+                    }
+                    par.push(c("t", vec![Val::Bool(PartialEq::eq(&ia, &ib)), opt(PartialOrd::partial_cmp(&ia, &ib), ord_val)]));
+                }
+                (bad, Val::L(par))
             }
             fn eqcmp(a: &[u8], b_: &[u8]) -> Val {
                 let $pb = a;
